@@ -522,9 +522,78 @@ class Guard:
     __repr__ = render
 
 
-def guards_of(fn, og, site):
+def _flag_def_blocks(fn, og, local, depth=0):
+    """if `local` is a boolean flag assigned only constants (the shape `matches!` and `&&`/`||`
+    lower to), return {value: [blocks assigning it]} else None"""
+    ds = og.defs.get(local, [])
+    if not ds:
+        return None
+    out = {}
+    for kind, bi, si in ds:
+        if kind != 'stmt':
+            return None
+        rv = fn.blocks[bi].stmts[si].rv
+        if rv.rv != 'use':
+            return None
+        op = rv.ops[0]
+        if op.kind == 'const' and op.const_int() is not None:
+            out.setdefault(int(op.const_int()), []).append(bi)
+        elif op.place is not None and not op.place.pr and depth < 2 and len(ds) == 1:
+            return _flag_def_blocks(fn, og, op.place.b, depth + 1)
+        else:
+            return None
+    return out
+
+
+def guards_of(fn, og, site, _depth=0):
+    """dominating branch edges of `site`; a guard on a materialised boolean flag (matches!, &&, ||)
+    is expanded into the guards of the block(s) that set the flag to the taken value"""
     cfg = cfg_of(fn)
-    return [Guard(fn, og, sb, vals, tg) for sb, vals, tg in cfg.edge_guards(site)]
+    res = [Guard(fn, og, sb, vals, tg) for sb, vals, tg in cfg.edge_guards(site)]
+    if _depth >= 3:
+        return res
+    extra = []
+    for g in res:
+        tv = g.truth()
+        if tv is None:
+            continue
+        d = g.term.switch_discr()
+        if d.place is None or d.place.pr:
+            continue
+        fd = _flag_def_blocks(fn, og, d.place.b)
+        if not fd:
+            continue
+        blocks = fd.get(1 if tv else 0, [])
+        if not blocks:
+            continue
+        sets = []
+        for b in blocks:
+            sets.append(guards_of(fn, og, b, _depth + 1))
+        if len(sets) == 1:
+            extra.extend(sets[0])
+        else:
+            # keep the guards common to every block that sets the flag to this value
+            first = sets[0]
+            for x in first:
+                if all(any(y.sb == x.sb and y.vals == x.vals for y in s) for s in sets[1:]):
+                    extra.append(x)
+            # and merged guards: same switch block, different value sets -> union of values
+            by_sb = {}
+            for s in sets:
+                for y in s:
+                    by_sb.setdefault(y.sb, []).append(y)
+            for sb, ys in by_sb.items():
+                if len(ys) == len(sets) and len({y.vals for y in ys}) > 1:
+                    merged = Guard(fn, og, sb, tuple(sorted({v for y in ys for v in y.vals}, key=str)), ys[0].target)
+                    extra.append(merged)
+    seen = set()
+    out = []
+    for g in res + extra:
+        k = (g.sb, g.vals)
+        if k not in seen:
+            seen.add(k)
+            out.append(g)
+    return out
 
 
 def origin_calls(o, name_suffix):
